@@ -156,7 +156,19 @@ pub fn parse_conf(conf: &str, filename: &str) -> Result<ConfigNode, ConfigError>
     }
 
     // Parses the main section
-    parse_section("server", &mut lines, filename, 0)
+    let server = parse_section("server", &mut lines, filename, 0)?;
+
+    // Nothing but comments and blank lines may follow the main section
+    while let Some(line) = lines.next() {
+        quiet_assert(
+            clean_up(line).is_empty(),
+            "Unexpected content after the end of the `server` section",
+            filename,
+            &mut lines,
+        )?;
+    }
+
+    Ok(server)
 }
 
 /// Recursively parses a section of the configuration.
